@@ -61,6 +61,15 @@ pub enum ConfigError {
     /// Missing required configuration value
     #[error("Missing required configuration: {0}")]
     MissingRequired(String),
+
+    /// Configuration value that cannot be used
+    #[error("Invalid value for {name}: {reason}")]
+    InvalidValue {
+        /// Name of the option
+        name: String,
+        /// Reason for invalidity
+        reason: String,
+    },
 }
 
 /// Server runtime errors.
